@@ -986,3 +986,551 @@ Proof.
   { repeat constructor; intros c Hc; cbn in Hc; repeat (destruct Hc as [<-|Hc]; [reflexivity|]); contradiction. }
   eexists. split; [vm_compute; reflexivity | reflexivity].
 Qed.
+
+(* ================= prose between the examples ================= *)
+(* one step: text, a run of non-text lines, and whatever follows -- provided the boundary to what follows is clean *)
+Definition hd_ok_after (X : list (label * str)) (R : list (label * str)) : Prop :=
+  match R with
+  | [] => True
+  | r :: _ => fst r <> WANT /\ forall d, class_of (fst (last X d)) <> class_of (fst r)
+  end.
+
+Lemma group_lines_nil : group_lines [] = Ok [].
+Proof. reflexivity. Qed.
+
+Lemma gl_step T0 (x : label * str) X' R gs :
+  AllClass KText T0 ->
+  Forall (fun it => class_of (fst it) <> KText) (x :: X') -> fst x <> WANT ->
+  hd_ok_after (x :: X') R ->
+  group_lines (T0 ++ (x :: X') ++ R) = Ok gs ->
+  exists gx gr, group_lines (x :: X') = Ok gx /\ group_lines R = Ok gr /\ gs = tchunk T0 ++ gx ++ gr.
+Proof.
+  intros H0 HX HW HR G.
+  assert (G' : exists g0 gr, group_lines (T0 ++ x :: X') = Ok g0 /\ group_lines R = Ok gr /\ gs = g0 ++ gr).
+  { destruct R as [|r R'].
+    - rewrite app_nil_r in G. exists gs, []. split; [exact G|]. split; [reflexivity | rewrite app_nil_r; reflexivity].
+    - destruct HR as [HRW HRC]. rewrite app_assoc in G.
+      rewrite (group_lines_app (T0 ++ x :: X') r R' (TEXT, [])) in G.
+      + apply both_ok_inv in G. destruct G as (a & b & Ga & Gb & ->). exists a, b. repeat split; assumption.
+      + destruct T0; discriminate.
+      + rewrite last_app_ne by discriminate. apply HRC.
+      + exact HRW. }
+  destruct G' as (g0 & gr & G0 & GR & ->).
+  destruct T0 as [|t0 T0'].
+  - exists g0, gr. repeat split; assumption.
+  - rewrite (group_lines_app (t0 :: T0') x X' (TEXT, [])) in G0.
+    + apply both_ok_inv in G0. destruct G0 as (a & b & Ga & Gb & ->).
+      rewrite (group_lines_text t0 T0' H0) in Ga. inversion Ga; subst a. exists b, gr. split; [exact Gb|]. split; [exact GR|].
+      cbn [tchunk app]. reflexivity.
+    + discriminate.
+    + rewrite (class_all_last KText (t0 :: T0')); [|discriminate | exact H0].
+      inversion HX as [|? ? Hx _]; subst. intros E. apply Hx. symmetry. exact E.
+    + exact HW.
+Qed.
+
+(* the other direction, for the displayed text: runs of non-text lines put back to back *)
+Lemma gl_join (x : label * str) X' R gx gr :
+  hd_ok_after (x :: X') R ->
+  group_lines (x :: X') = Ok gx -> group_lines R = Ok gr ->
+  group_lines ((x :: X') ++ R) = Ok (gx ++ gr).
+Proof.
+  intros HR GX GR. destruct R as [|r R'].
+  - rewrite app_nil_r. cbn in GR. inversion GR; subst gr. rewrite app_nil_r. exact GX.
+  - destruct HR as [HRW HRC].
+    rewrite (group_lines_app (x :: X') r R' (TEXT, [])); [|discriminate | apply HRC | exact HRW].
+    rewrite GX, GR. reflexivity.
+Qed.
+
+Record section := mkSec { s_prose : list str; s_exs : list example; s_ind : nat }.
+Definition sec_X (sec : section) : list (label * str) := intended (map BEx (s_exs sec)).
+Definition sec_items (sec : section) : list (label * str) := text_items (s_prose sec) ++ sec_X sec.
+Definition ll_of (secs : list section) (pend : list str) : list (label * str) :=
+  concat (map sec_items secs) ++ text_items pend.
+
+(* what the chain gives for the lines of one run of examples *)
+Definition SecFacts (sec : section) : Prop :=
+  exists x X', sec_X sec = x :: X' /\ fst x = DSRC /\ Forall (fun it => class_of (fst it) <> KText) (x :: X').
+Definition WantEnd (sec : section) : Prop := forall d, class_of (fst (last (sec_X sec) d)) = KWant.
+(* every run but the last one ends with a want *)
+Fixpoint WantEnds (secs : list section) : Prop :=
+  match secs with
+  | [] => True
+  | [_] => True
+  | sec :: rest => WantEnd sec /\ WantEnds rest
+  end.
+
+Definition head_not_want (R : list (label * str)) : Prop :=
+  match R with [] => True | r :: _ => class_of (fst r) <> KWant end.
+
+Lemma ll_head_not_want secs pend : Forall SecFacts secs -> head_not_want (ll_of secs pend).
+Proof.
+  intros HF. unfold ll_of. destruct secs as [|sec rest].
+  - cbn [map concat app]. destruct pend; cbn; [exact I | discriminate].
+  - inversion HF as [|? ? (x & X' & EX & Hx & _) _]; subst. cbn [map concat]. unfold sec_items.
+    destruct (s_prose sec) as [|l p]; cbn [text_items map app].
+    + rewrite EX. cbn. rewrite Hx. discriminate.
+    + cbn. discriminate.
+Qed.
+
+Lemma hd_ok_want X R : (forall d, class_of (fst (last X d)) = KWant) -> head_not_want R -> hd_ok_after X R.
+Proof.
+  intros HL HH. destruct R as [|r R']; [exact I|]. cbn in HH. split.
+  - intros E. apply HH. rewrite E. reflexivity.
+  - intros d E. apply HH. rewrite <- E. apply HL.
+Qed.
+
+Lemma hd_ok_text X R : X <> [] -> Forall (fun it => class_of (fst it) <> KText) X -> AllClass KText R -> hd_ok_after X R.
+Proof.
+  intros NE HX HR. destruct R as [|r R']; [exact I|]. inversion HR as [|? ? Hr _]; subst. split.
+  - intros E. rewrite E in Hr. discriminate.
+  - intros d E. rewrite Forall_forall in HX. apply (HX (last X d)); [apply last_in_ne; exact NE|]. rewrite E. exact Hr.
+Qed.
+
+(* the chunks of the docstring: per section a text chunk (if there is prose) and the chunks of its run *)
+Fixpoint sec_chunks (secs : list section) (gxs : list (list chunk)) : list chunk :=
+  match secs, gxs with
+  | sec :: secs', gx :: gxs' => tchunk (text_items (s_prose sec)) ++ gx ++ sec_chunks secs' gxs'
+  | _, _ => []
+  end.
+
+Lemma gl_sections : forall secs pend gs,
+  Forall SecFacts secs -> WantEnds secs ->
+  group_lines (ll_of secs pend) = Ok gs ->
+  exists gxs, Forall2 (fun sec gx => group_lines (sec_X sec) = Ok gx) secs gxs /\
+              gs = sec_chunks secs gxs ++ tchunk (text_items pend).
+Proof.
+  induction secs as [|sec rest IH]; intros pend gs HF HW G.
+  - unfold ll_of in G. cbn [map concat app] in G. exists []. split; [constructor|]. cbn [sec_chunks app].
+    destruct pend as [|l p]; [cbn in G; inversion G; reflexivity|].
+    unfold text_items in *. cbn [map] in *. rewrite group_lines_text in G.
+    + inversion G. reflexivity.
+    + apply (text_items_class (l :: p)).
+  - inversion HF as [|? ? HS HFr]; subst. destruct HS as (x & X' & EX & Hx & HXn).
+    unfold ll_of in G. cbn [map concat] in G. unfold sec_items in G at 1. rewrite <- !app_assoc in G.
+    fold (ll_of rest pend) in G. rewrite EX in G.
+    assert (HB : hd_ok_after (x :: X') (ll_of rest pend)).
+    { destruct rest as [|sec2 rest'].
+      - unfold ll_of. cbn [map concat app]. apply hd_ok_text; [discriminate | exact HXn | apply text_items_class].
+      - destruct HW as [HWe _]. unfold WantEnd in HWe. rewrite EX in HWe.
+        apply hd_ok_want; [exact HWe | apply ll_head_not_want; exact HFr]. }
+    apply gl_step in G; [| apply text_items_class | exact HXn | rewrite Hx; discriminate | exact HB].
+    destruct G as (gx & gr & GX & GR & ->).
+    assert (HW' : WantEnds rest) by (destruct rest as [|s2 r2]; [exact I | destruct HW as [_ HW]; exact HW]).
+    destruct (IH pend gr HFr HW' GR) as (gxs & F2 & ->).
+    exists (gx :: gxs). split; [constructor; [unfold sec_X in *; rewrite EX; exact GX | exact F2]|].
+    cbn [sec_chunks]. rewrite <- !app_assoc. reflexivity.
+Qed.
+
+Definition HeadSrc (Y : list (label * str)) : Prop := exists y Y', Y = y :: Y' /\ fst y = DSRC.
+Fixpoint WantEndsL (Ys : list (list (label * str))) : Prop :=
+  match Ys with
+  | [] => True
+  | [_] => True
+  | Y :: rest => (forall d, class_of (fst (last Y d)) = KWant) /\ WantEndsL rest
+  end.
+
+Lemma gl_join_all : forall Ys gs,
+  Forall2 (fun Y g => group_lines Y = Ok g) Ys gs -> Forall HeadSrc Ys -> WantEndsL Ys ->
+  group_lines (concat Ys) = Ok (concat gs).
+Proof.
+  induction Ys as [|Y rest IH]; intros gs F2 HH HW.
+  - inversion F2; subst. reflexivity.
+  - inversion F2 as [|? g ? gr GY Fr]; subst. inversion HH as [|? ? (y & Y' & EY & Hy) HHr]; subst.
+    cbn [concat]. apply gl_join; [| exact GY |].
+    + destruct rest as [|Y2 rest']; [exact I|].
+      destruct HW as [HWe _]. apply hd_ok_want; [exact HWe|].
+      inversion HHr as [|? ? (y2 & Y2' & EY2 & Hy2) _]; subst. cbn. rewrite Hy2. discriminate.
+    + apply IH; [exact Fr | exact HHr |]. destruct rest as [|Y2 r2]; [exact I | destruct HW as [_ HW]; exact HW].
+Qed.
+
+(* parts up to the line they start on *)
+Definition unoffset (p : part) : part :=
+  mkPart (exec_lines p) (want_lines p) O (orig_lines p) (p_directives p) (compile_mode p) (p_dirs_raise p).
+Definition UP (its : list item) : list part := map unoffset (parts_of its).
+
+Lemma unoffset_shift k p : unoffset (shift k p) = unoffset p.
+Proof. reflexivity. Qed.
+
+Lemma UP_shift k its : UP (map (shift_item k) its) = UP its.
+Proof. unfold UP. rewrite parts_of_shift, map_map. apply map_ext. intros p. apply unoffset_shift. Qed.
+
+Lemma UP_app a b : UP (a ++ b) = UP a ++ UP b.
+Proof. unfold UP. rewrite parts_of_app, map_app. reflexivity. Qed.
+
+(* packaging a run from any start line: the same parts up to their offsets *)
+Lemma pk_any_start o gx k its : package_groups o gx k = Ok its ->
+  exists its0, package_groups o gx 0 = Ok its0 /\ its = map (shift_item k) its0.
+Proof.
+  intros P. pose proof (package_groups_shift o k gx 0) as SH. rewrite Nat.add_0_r, P in SH.
+  destruct (package_groups o gx 0) as [its0|e]; [|discriminate]. cbn [res_map] in SH. inversion SH. exists its0. split; reflexivity.
+Qed.
+
+Lemma pk_from_zero o gx k its0 : package_groups o gx 0 = Ok its0 ->
+  package_groups o gx k = Ok (map (shift_item k) its0).
+Proof.
+  intros P. pose proof (package_groups_shift o k gx 0) as SH. rewrite Nat.add_0_r, P in SH. exact SH.
+Qed.
+
+Lemma pk_secs o : forall secs gxs n items, length secs = length gxs ->
+  package_groups o (sec_chunks secs gxs) n = Ok items ->
+  exists its0s, Forall2 (fun gx its0 => package_groups o gx 0 = Ok its0) gxs its0s /\
+                UP items = concat (map UP its0s).
+Proof.
+  induction secs as [|sec secs IH]; intros gxs n items HL P.
+  - destruct gxs; [|discriminate]. cbn in P. inversion P. exists []. split; [constructor | reflexivity].
+  - destruct gxs as [|gx gxs]; [discriminate|]. cbn [sec_chunks] in P.
+    rewrite package_groups_app in P. apply both_ok_inv in P. destruct P as (t0 & r1 & P0 & P1 & ->).
+    rewrite package_groups_app in P1. apply both_ok_inv in P1. destruct P1 as (itsX & r2 & PX & P2 & ->).
+    destruct (package_tchunk o (text_items (s_prose sec)) n) as (t0' & E0 & N0). rewrite E0 in P0. inversion P0; subst t0'.
+    destruct (pk_any_start _ _ _ _ PX) as (its0 & PZ & ->).
+    cbn [length] in HL. injection HL as HL.
+    destruct (IH gxs _ r2 HL P2) as (its0s & F2 & EU).
+    exists (its0 :: its0s). split; [constructor; assumption|].
+    rewrite !UP_app, UP_shift, EU. unfold UP at 1. rewrite N0. reflexivity.
+Qed.
+
+Lemma pk_concat o : forall gxs its0s n,
+  Forall2 (fun gx its0 => package_groups o gx 0 = Ok its0) gxs its0s ->
+  exists items', package_groups o (concat gxs) n = Ok items' /\ UP items' = concat (map UP its0s).
+Proof.
+  induction gxs as [|gx gxs IH]; intros its0s n F2.
+  - inversion F2; subst. exists []. split; reflexivity.
+  - inversion F2 as [|? its0 ? its0r PZ Fr]; subst. cbn [concat].
+    destruct (IH its0r (n + length (flatten_chunks gx)) Fr) as (ir & PR & EU).
+    exists (map (shift_item n) its0 ++ ir). split.
+    + rewrite package_groups_app, (pk_from_zero _ _ n _ PZ), PR. reflexivity.
+    + rewrite UP_app, UP_shift, EU. reflexivity.
+Qed.
+
+(* ---------- the blocks of a sectioned docstring ---------- *)
+Definition sec_blocks (sec : section) : list block := BProse (s_prose sec) :: map BEx (s_exs sec).
+Definition doc_blocks (secs : list section) (pend : list str) : list block :=
+  concat (map sec_blocks secs) ++ [BProse pend].
+Definition all_exs (secs : list section) : list example := concat (map s_exs secs).
+
+Lemma intended_sec sec : intended (sec_blocks sec) = sec_items sec.
+Proof.
+  unfold sec_blocks, sec_items, sec_X. change (BProse (s_prose sec) :: map BEx (s_exs sec)) with ([BProse (s_prose sec)] ++ map BEx (s_exs sec)).
+  rewrite intended_app, intended_prose. reflexivity.
+Qed.
+
+Lemma intended_doc secs pend : intended (doc_blocks secs pend) = ll_of secs pend.
+Proof.
+  unfold doc_blocks, ll_of. rewrite intended_app, intended_prose. f_equal.
+  induction secs as [|sec secs IH]; [reflexivity|]. cbn [map concat]. rewrite intended_app, intended_sec, IH. reflexivity.
+Qed.
+
+Lemma chain_app_r bal : forall a b prev pind, Chain bal prev pind (a ++ b) -> exists pv pi, Chain bal pv pi b.
+Proof.
+  induction a as [|x a IH]; intros b prev pind H; [eexists; eexists; exact H|]. cbn [app] in H.
+  inversion H as [|? ? ? ? _ Hrest]; subst. eapply IH. exact Hrest.
+Qed.
+
+Lemma chain_sections bal : forall secs pend prev pind, Chain bal prev pind (doc_blocks secs pend) ->
+  Forall (fun sec => exists pv pi, Chain bal pv pi (map BEx (s_exs sec))) secs.
+Proof.
+  induction secs as [|sec secs IH]; intros pend prev pind H; [constructor|].
+  unfold doc_blocks in H. cbn [map concat] in H. unfold sec_blocks in H at 1. cbn [app] in H.
+  inversion H as [|? ? ? ? _ Hrest]; subst. rewrite <- app_assoc in Hrest. constructor.
+  - eexists. eexists. eapply chain_app_l. exact Hrest.
+  - apply chain_app_r in Hrest. destruct Hrest as (pv & pi & Hr). eapply IH. exact Hr.
+Qed.
+
+Definition ExOK (bal : list str -> res bool) (e : example) : Prop :=
+  ex_stmts e <> [] /\ Forall (BalOK bal) (ex_stmts e) /\ Forall WantLine (ex_want e).
+
+Lemma chain_exok bal : forall exs prev pind, Chain bal prev pind (map BEx exs) -> Forall (ExOK bal) exs.
+Proof.
+  induction exs as [|e exs IH]; intros prev pind H; [constructor|]. cbn [map] in H.
+  inversion H as [|? ? ? ? Hok Hrest]; subst. destruct Hok as (A & B & C & _).
+  constructor; [split; [exact A|]; split; [exact B | exact C] | eapply IH; exact Hrest].
+Qed.
+
+Lemma chain0_of_ok bal : forall exs prev, Forall (ExOK bal) exs -> Chain bal prev O (map BEx (map ex0 exs)).
+Proof.
+  induction exs as [|e exs IH]; intros prev H; [constructor|]. inversion H as [|? ? (A & B & C) Hr]; subst.
+  cbn [map]. constructor.
+  - cbn [ok_after ex0 ex_stmts ex_want ex_ind]. split; [exact A|]. split; [exact B|]. split; [exact C|]. intros _. reflexivity.
+  - cbn [after_block ex0 ex_want ex_ind]. destruct (ex_want e); cbn [fst snd]; apply IH; exact Hr.
+Qed.
+
+Lemma sec_facts bal sec pv pi : s_exs sec <> [] -> Chain bal pv pi (map BEx (s_exs sec)) -> SecFacts sec.
+Proof.
+  intros NE H. destruct (intended_exs_head _ _ _ _ NE H) as (x & X' & EX & Hx). exists x, X'. split; [exact EX|]. split; [exact Hx|].
+  rewrite <- EX. unfold sec_X. rewrite intended_exs. apply (proj1 (Forall_map fst (fun l => class_of l <> KText) _)).
+  rewrite map_fst_combine by apply exs_labels_length.
+  eapply Forall_impl; [|apply exs_labels_notext]. intros l Hl E. apply Hl. destruct l; cbn in E; try discriminate. reflexivity.
+Qed.
+
+(* a run whose last example has a want ends with a want line *)
+Definition LastHasWant (exs : list example) : Prop := exists pre e, exs = pre ++ [e] /\ ex_want e <> [].
+
+Lemma last_combine_want (a : list label) (b : list str) (ws : list str) (f : str -> str) d : ws <> [] -> length a = length b ->
+  fst (last (combine (a ++ map (fun _ => WANT) ws) (b ++ map f ws)) d) = WANT.
+Proof.
+  intros NE HL. rewrite combine_app by exact HL. rewrite last_app_ne.
+  - destruct (exists_last NE) as (ws' & w & ->). rewrite !map_app. cbn [map].
+    rewrite combine_app by (rewrite !map_length; reflexivity). cbn [combine]. rewrite last_last. reflexivity.
+  - destruct ws; [contradiction | discriminate].
+Qed.
+
+Lemma want_end_of_last sec : LastHasWant (s_exs sec) -> WantEnd sec.
+Proof.
+  intros (pre & e & E & NW) d. unfold sec_X. rewrite E, map_app, intended_app. cbn [map].
+  rewrite last_app_ne.
+  - unfold intended. cbn [map concat block_labels block_lines]. rewrite !app_nil_r. unfold ex_labels, ex_lines.
+    rewrite (last_combine_want _ _ (ex_want e) (fun w => spaces (ex_ind e) ++ w) d NW); [reflexivity|].
+    clear. induction (ex_stmts e) as [|s ss IH]; [reflexivity|]. cbn [map concat]. rewrite !app_length, IH, (stmt_labels_length (ex_ind e)). reflexivity.
+  - unfold intended. cbn [map concat block_labels block_lines]. rewrite !app_nil_r. unfold ex_labels, ex_lines.
+    destruct (ex_want e) as [|w ws]; [contradiction|]. intros E0. apply (f_equal (@length _)) in E0.
+    rewrite combine_length, !app_length in E0. cbn [map length] in E0. lia.
+Qed.
+
+(* ---------- one run of examples: its displayed version groups and packages to the same parts ---------- *)
+Definition sec_L0 (sec : section) : list str := exs_lines (map ex0 (s_exs sec)).
+Definition sec_X0 (sec : section) : list (label * str) := intended (map BEx (map ex0 (s_exs sec))).
+Definition SecHyp (o : oracles) (sec : section) : Prop :=
+  s_exs sec <> [] /\ Forall (fun e => ex_ind e = s_ind sec) (s_exs sec) /\
+  (exists pv pi, Chain (o_bal o) pv pi (map BEx (s_exs sec))) /\ Forall LineOK (sec_L0 sec).
+
+Lemma sec_core o sec gx its0 : AstInRange o -> SecHyp o sec ->
+  group_lines (sec_X sec) = Ok gx -> package_groups o gx 0 = Ok its0 ->
+  group_lines (sec_X0 sec) = Ok (map (chunk_map (skipn (s_ind sec))) gx) /\
+  package_groups o (map (chunk_map (skipn (s_ind sec))) gx) 0 = Ok its0 /\
+  concat (map all_lines (parts_of its0)) = sec_L0 sec /\
+  Forall ShownOK (parts_of its0) /\ Forall (fun p => orig_lines p <> []) (parts_of its0).
+Proof.
+  intros HR (NE & HI & (pv & pi & HC) & HOK) G P. unfold sec_X in G.
+  pose proof (chain_wants _ _ _ _ HC) as HW.
+  pose proof (exs0_lines_heads _ HW) as HH.
+  assert (EI : sec_X0 sec = map (on_snd (skipn (s_ind sec))) (intended (map BEx (s_exs sec)))).
+  { unfold sec_X0. rewrite !intended_exs, map_on_snd_combine, exs_labels_ex0. f_equal.
+    rewrite (exs_lines_ind (s_ind sec) (s_exs sec) HI), skipn_ind_lines. reflexivity. }
+  assert (GC : Forall is_code gx).
+  { eapply group_lines_notext; [|exact G]. unfold NoText. rewrite intended_exs.
+    apply (proj1 (Forall_map fst (fun l => l <> TEXT) _)).
+    rewrite map_fst_combine by apply exs_labels_length. apply exs_labels_notext. }
+  assert (GI : Forall (IndLine (s_ind sec)) (flatten_chunks gx)).
+  { rewrite (group_lines_partition _ _ G), intended_exs, map_snd_combine by apply exs_labels_length.
+    rewrite (exs_lines_ind (s_ind sec) (s_exs sec) HI). apply ind_lines. exact HH. }
+  split; [rewrite EI, group_lines_map, G; reflexivity|].
+  split; [rewrite (package_groups_dedent o (s_ind sec) gx 0 GC GI); exact P|].
+  exact (display_core o (s_ind sec) (s_exs sec) gx its0 0 pv pi HR HI HC HOK G P).
+Qed.
+
+Lemma sections_core o : AstInRange o -> forall secs gxs its0s,
+  Forall (SecHyp o) secs ->
+  Forall2 (fun sec gx => group_lines (sec_X sec) = Ok gx) secs gxs ->
+  Forall2 (fun gx its0 => package_groups o gx 0 = Ok its0) gxs its0s ->
+  exists gx0s,
+    Forall2 (fun Y g => group_lines Y = Ok g) (map sec_X0 secs) gx0s /\
+    Forall2 (fun gx its0 => package_groups o gx 0 = Ok its0) gx0s its0s /\
+    concat (map (fun its0 => concat (map all_lines (parts_of its0))) its0s) = concat (map sec_L0 secs) /\
+    Forall (fun its0 => Forall ShownOK (parts_of its0) /\ Forall (fun p => orig_lines p <> []) (parts_of its0)) its0s.
+Proof.
+  intros HR. induction secs as [|sec secs IH]; intros gxs its0s HS F1 F2.
+  - inversion F1; subst. inversion F2; subst. exists []. repeat split; constructor.
+  - inversion F1 as [|? gx ? gxr G F1r]; subst. inversion F2 as [|? its0 ? itr P F2r]; subst.
+    inversion HS as [|? ? Hs HSr]; subst.
+    destruct (sec_core o sec gx its0 HR Hs G P) as (A & B & C & D & E).
+    destruct (IH gxr itr HSr F1r F2r) as (gx0s & A' & B' & C' & D').
+    exists (map (chunk_map (skipn (s_ind sec))) gx :: gx0s). cbn [map concat].
+    split; [constructor; assumption|]. split; [constructor; assumption|].
+    split; [rewrite C, C'; reflexivity|]. constructor; [split; assumption | exact D'].
+Qed.
+
+Fixpoint WantEndsS (secs : list section) : Prop :=
+  match secs with
+  | [] => True
+  | [_] => True
+  | sec :: rest => LastHasWant (s_exs sec) /\ WantEndsS rest
+  end.
+
+Lemma want_ends_of secs : WantEndsS secs -> WantEnds secs.
+Proof.
+  induction secs as [|sec [|s2 rest] IH]; intros H; try exact I.
+  destruct H as [H1 H2]. split; [apply want_end_of_last; exact H1 | apply IH; exact H2].
+Qed.
+
+Definition sec0 (sec : section) : section := mkSec [] (map ex0 (s_exs sec)) 0.
+
+Lemma last_has_want0 exs : LastHasWant exs -> LastHasWant (map ex0 exs).
+Proof. intros (pre & e & -> & NW). exists (map ex0 pre), (ex0 e). split; [rewrite map_app; reflexivity | exact NW]. Qed.
+
+Lemma want_ends_l0 secs : WantEndsS secs -> WantEndsL (map sec_X0 secs).
+Proof.
+  induction secs as [|sec [|s2 rest] IH]; intros H; try exact I.
+  destruct H as [H1 H2]. split; [|apply IH; exact H2].
+  apply (want_end_of_last (sec0 sec)). cbn [sec0 s_exs]. apply last_has_want0. exact H1.
+Qed.
+
+Lemma head_src0 bal sec pv pi : s_exs sec <> [] -> Chain bal pv pi (map BEx (s_exs sec)) -> HeadSrc (sec_X0 sec).
+Proof.
+  intros NE H.
+  assert (NE0 : map ex0 (s_exs sec) <> []) by (destruct (s_exs sec); [contradiction | discriminate]).
+  destruct (intended_exs_head _ _ _ _ NE0 (chain_ex0 _ _ _ _ H)) as (x & X' & EX & Hx).
+  exists x, X'. split; assumption.
+Qed.
+
+Lemma intended_concat : forall bss, intended (concat bss) = concat (map intended bss).
+Proof. induction bss as [|b bss IH]; [reflexivity|]. cbn [concat map]. rewrite intended_app, IH. reflexivity. Qed.
+
+Lemma all_X0 secs : intended (map BEx (map ex0 (all_exs secs))) = concat (map sec_X0 secs).
+Proof.
+  unfold all_exs. rewrite !concat_map, intended_concat, !map_map. reflexivity.
+Qed.
+
+Lemma all_L0 secs : exs_lines (map ex0 (all_exs secs)) = concat (map sec_L0 secs).
+Proof.
+  unfold all_exs, sec_L0, exs_lines. induction secs as [|sec secs IH]; [reflexivity|].
+  cbn [map concat]. rewrite !map_app, concat_app, IH. reflexivity.
+Qed.
+
+Lemma all_lines_unoffset p : all_lines (unoffset p) = all_lines p.
+Proof. reflexivity. Qed.
+
+Lemma concat_all_lines_UP its : concat (map all_lines (UP its)) = concat (map all_lines (parts_of its)).
+Proof. unfold UP. rewrite map_map. reflexivity. Qed.
+
+Lemma forall_of_unoffset (P : part -> Prop) (l : list part) :
+  (forall p, P (unoffset p) -> P p) -> Forall P (map unoffset l) -> Forall P l.
+Proof. intros H F. rewrite Forall_map in F. eapply Forall_impl; [|exact F]. exact H. Qed.
+
+Lemma forall_to_unoffset (P : part -> Prop) (l : list part) :
+  (forall p, P p -> P (unoffset p)) -> Forall P l -> Forall P (map unoffset l).
+Proof. intros H F. rewrite Forall_map. eapply Forall_impl; [|exact F]. exact H. Qed.
+
+Lemma forall2_length {A B} (R : A -> B -> Prop) : forall l1 l2, Forall2 R l1 l2 -> length l1 = length l2.
+Proof. induction l1 as [|x l1 IH]; intros l2 H; inversion H; subst; [reflexivity|]. cbn. f_equal. apply IH. assumption. Qed.
+
+Lemma exs0_first_ok bal exs : exs <> [] -> Forall (ExOK bal) exs ->
+  exists code rest, exs_lines (map ex0 exs) = (PS1sp ++ code) :: rest.
+Proof.
+  intros NE H. destruct exs as [|e exs]; [contradiction|]. inversion H as [|? ? (A & _) _]; subst.
+  unfold exs_lines. cbn [map concat block_lines]. unfold ex_lines. cbn [ex0 ex_stmts ex_ind ex_want].
+  destruct (ex_stmts e) as [|s ss]; [contradiction|]. cbn [map concat stmt_lines spaces repeat app].
+  eexists. eexists. rewrite <- !app_assoc. cbn [app]. reflexivity.
+Qed.
+
+(* prose anywhere, as long as an example that is followed by prose-then-examples has a want:
+   the displayed text parses to the same parts up to the lines they start on *)
+Theorem reparse_sections o secs pend s items off lineno :
+  AstInRange o -> secs <> [] ->
+  Forall (fun sec => s_exs sec <> [] /\ Forall (fun e => ex_ind e = s_ind sec) (s_exs sec)) secs ->
+  WantEndsS secs ->
+  Chain (o_bal o) TEXT O (doc_blocks secs pend) ->
+  splitlines (normalize_docstring s) = concat (map block_lines (doc_blocks secs pend)) ->
+  Forall LineOK (exs_lines (map ex0 (all_exs secs))) ->
+  parse o s = Parsed items ->
+  format_src (parts_of items) false true off true false lineno = join_nl (exs_lines (map ex0 (all_exs secs))) /\
+  exists items', parse o (format_src (parts_of items) false true off true false lineno) = Parsed items' /\
+                 map unoffset (parts_of items) = map unoffset (parts_of items').
+Proof.
+  intros HR NE HU HWS HC HL HOK HP.
+  (* per-section facts *)
+  pose proof (chain_sections _ _ _ _ _ HC) as HCS.
+  assert (HS : Forall (SecHyp o) secs).
+  { rewrite all_L0 in HOK. clear - HU HCS HOK. induction secs as [|sec secs IH]; [constructor|].
+    inversion HU as [|? ? [A B] HUr]; subst. inversion HCS as [|? ? C HCr]; subst.
+    cbn [map concat] in HOK. apply Forall_app in HOK. destruct HOK as [H1 H2].
+    constructor; [repeat split; assumption | apply IH; assumption]. }
+  assert (HF : Forall SecFacts secs).
+  { eapply Forall_impl; [|exact HS]. intros sec (A & _ & (pv & pi & C) & _). eapply sec_facts; eassumption. }
+  (* the original parse *)
+  unfold parse in HP. unfold label_lines in HP. rewrite HL in HP.
+  rewrite (labels_as_intended_from _ _ _ _ HC), intended_doc in HP.
+  destruct (group_lines (ll_of secs pend)) as [gs|e] eqn:G; [|destruct e; discriminate].
+  destruct (package_groups o gs 0) as [its|e] eqn:P; [|destruct e; discriminate].
+  inversion HP; subst its. clear HP.
+  destruct (gl_sections secs pend gs HF (want_ends_of _ HWS) G) as (gxs & F1 & ->).
+  rewrite package_groups_app in P. apply both_ok_inv in P. destruct P as (i1 & t1 & P1 & P2 & ->).
+  destruct (package_tchunk o (text_items pend) (0 + length (flatten_chunks (sec_chunks secs gxs)))) as (t1' & E1 & N1).
+  rewrite E1 in P2. inversion P2; subst t1'.
+  assert (LEN : length secs = length gxs) by (eapply forall2_length; exact F1).
+  destruct (pk_secs o secs gxs 0 i1 LEN P1) as (its0s & F2 & EU).
+  destruct (sections_core o HR secs gxs its0s HS F1 F2) as (gx0s & A & B & C & D).
+  assert (UPI : UP (i1 ++ t1) = concat (map UP its0s)).
+  { rewrite UP_app, EU. unfold UP at 2. rewrite N1. cbn [map]. rewrite app_nil_r. reflexivity. }
+  (* what is displayed *)
+  assert (AL : concat (map all_lines (parts_of (i1 ++ t1))) = exs_lines (map ex0 (all_exs secs))).
+  { rewrite <- concat_all_lines_UP, UPI, all_L0, <- C.
+    clear. induction its0s as [|x l IH]; [reflexivity|]. cbn [map concat]. rewrite map_app, concat_app, IH, concat_all_lines_UP. reflexivity. }
+  assert (OKS : Forall ShownOK (parts_of (i1 ++ t1)) /\ Forall (fun p => orig_lines p <> []) (parts_of (i1 ++ t1))).
+  { assert (K : Forall (fun p => ShownOK p /\ orig_lines p <> []) (map unoffset (parts_of (i1 ++ t1)))).
+    { change (map unoffset (parts_of (i1 ++ t1))) with (UP (i1 ++ t1)). rewrite UPI. apply Forall_concat. rewrite Forall_map.
+      eapply Forall_impl; [|exact D]. intros its0 [S1 S2]. unfold UP. rewrite Forall_map.
+      rewrite Forall_forall in *. intros p Hp. split; [apply (S1 p Hp) | apply (S2 p Hp)]. }
+    rewrite Forall_map in K. split; eapply Forall_impl; try exact K; intros p [K1 K2]; assumption. }
+  destruct OKS as [SOK NEO].
+  assert (DD : format_src (parts_of (i1 ++ t1)) false true off true false lineno = join_nl (exs_lines (map ex0 (all_exs secs)))).
+  { rewrite format_src_shown by assumption. rewrite AL. reflexivity. }
+  split; [exact DD|].
+  (* the displayed text parses *)
+  destruct (pk_concat o gx0s its0s 0 B) as (items' & PD & EUD).
+  exists items'. split.
+  - rewrite DD.
+    assert (OKA : Forall (ExOK (o_bal o)) (all_exs secs)).
+    { unfold all_exs. apply Forall_concat. rewrite Forall_map. eapply Forall_impl; [|exact HCS].
+      intros sec (pv & pi & Hc). eapply chain_exok. exact Hc. }
+    pose proof (chain0_of_ok _ _ TEXT OKA) as HC0.
+    assert (NEA : map ex0 (all_exs secs) <> []).
+    { destruct secs as [|sec r]; [contradiction|]. inversion HU as [|? ? [Hne _] _]; subst. unfold all_exs. cbn [map concat].
+      destruct (s_exs sec); [contradiction | discriminate]. }
+    assert (HW : Forall (fun e => Forall WantLine (ex_want e)) (all_exs secs)).
+    { eapply Forall_impl; [|exact OKA]. intros e (_ & _ & W). exact W. }
+    pose proof (exs0_lines_heads _ HW) as HH.
+    assert (NEB : all_exs secs <> []) by (intros E; rewrite E in NEA; apply NEA; reflexivity).
+    destruct (exs0_first_ok (o_bal o) (all_exs secs) NEB OKA) as (code & rest & EF).
+    unfold parse. rewrite EF, normalize_displayed by (rewrite <- EF; exact HOK).
+    unfold label_lines. rewrite splitlines_join.
+    2:{ rewrite <- EF. rewrite Forall_forall in *. intros l Hl. split; [apply (HOK l Hl)|].
+        destruct (HH l Hl) as (c & r & E & _). subst l. discriminate. }
+    rewrite <- EF. unfold exs_lines at 1. rewrite (labels_as_intended_from _ _ _ _ HC0), all_X0.
+    rewrite (gl_join_all (map sec_X0 secs) gx0s A).
+    + rewrite PD. reflexivity.
+    + rewrite Forall_map. eapply Forall_impl; [|exact HS]. intros sec (N1' & _ & (pv & pi & Hc) & _). eapply head_src0; eassumption.
+    + apply want_ends_l0. exact HWS.
+  - change (UP (i1 ++ t1) = UP items'). rewrite EUD. exact UPI.
+Qed.
+
+
+(* the hypotheses are satisfiable:
+   "Summary." "" "    >>> a" "    w" "" "More:" "" "    >>> b" "" "End." *)
+Definition demo_secs : list section :=
+  [mkSec [[83;117;109;109;97;114;121;46]; []]%N [mkEx 4 [mkStmtB [97%N] []] [[119%N]]] 4;
+   mkSec [[]; [77;111;114;101;58]; []]%N [mkEx 4 [mkStmtB [98%N] []] []] 4].
+Definition demo_pend : list str := [[]; [69;110;100;46]]%N.
+Definition demo_doc3 : str :=
+  ([83;117;109;109;97;114;121;46;10;10] ++ [32;32;32;32;62;62;62;32;97;10] ++ [32;32;32;32;119;10;10] ++
+   [77;111;114;101;58;10;10] ++ [32;32;32;32;62;62;62;32;98;10;10] ++ [69;110;100;46])%N.
+
+Example demo_sections_hyps :
+  demo_secs <> [] /\
+  Forall (fun sec => s_exs sec <> [] /\ Forall (fun e => ex_ind e = s_ind sec) (s_exs sec)) demo_secs /\
+  WantEndsS demo_secs /\
+  Chain (o_bal demo_oracle) TEXT 0 (doc_blocks demo_secs demo_pend) /\
+  splitlines (normalize_docstring demo_doc3) = concat (map block_lines (doc_blocks demo_secs demo_pend)) /\
+  Forall LineOK (exs_lines (map ex0 (all_exs demo_secs))) /\
+  exists items, parse demo_oracle demo_doc3 = Parsed items /\ map line_offset (parts_of items) = [2; 7].
+Proof.
+  split; [discriminate|]. split; [repeat constructor; discriminate|]. split.
+  { split; [|exact I]. exists [], (mkEx 4 [mkStmtB [97%N] []] [[119%N]]). split; [reflexivity | discriminate]. }
+  split.
+  { unfold doc_blocks, demo_secs, sec_blocks. cbn [map concat app s_prose s_exs].
+    apply Chain_cons. { split; [repeat constructor | intros H; contradiction H; reflexivity]. }
+    apply Chain_cons.
+    { split; [discriminate|]. split; [|split].
+      - constructor; [|constructor]. split; [intros k Hk; simpl in Hk; lia | reflexivity].
+      - constructor; [|constructor]. split; [eexists; eexists; split; reflexivity | repeat split; reflexivity].
+      - intros H; discriminate H. }
+    apply Chain_cons. { split; [repeat constructor | intros _; reflexivity]. }
+    apply Chain_cons.
+    { split; [discriminate|]. split; [|split].
+      - constructor; [|constructor]. split; [intros k Hk; simpl in Hk; lia | reflexivity].
+      - constructor.
+      - intros H; discriminate H. }
+    apply Chain_cons; [|apply Chain_nil]. split; [repeat constructor | intros _; reflexivity]. }
+  split; [reflexivity|]. split.
+  { repeat constructor; intros c Hc; cbn in Hc; repeat (destruct Hc as [<-|Hc]; [reflexivity|]); contradiction. }
+  eexists. split; [vm_compute; reflexivity | reflexivity].
+Qed.
